@@ -965,3 +965,82 @@ FAMILIES = [
            theorem='C18_source_untouched, C18_module_fresh'),
     Family('to_tensor_keyword', gen_kf_kw, impl, coq, PREAMBLE, compare, oracle_kw, descr=descr, shard=40, theorem='C18_kind (parser 3)'),
 ]
+
+
+# ---- added after seeded change C18-2: apply(f) with an in-place or view-returning f never touches the source ----------------
+def _gen_apply_inplace(rng, tier):
+    out = []
+    for i in range(12 if tier == 'quick' else 160):
+        out.append({'container': ['spatial', 'ktraj', 'dcf', 'nested'][i % 4], 'fn': ['mul_', 'clamp_', 'identity', 'view', 'none'][(i // 4) % 5],
+                    'seed': rng.randrange(10 ** 6)})
+    return out
+
+
+def _impl_apply_inplace(c):
+    import torch
+    from mrpro.data import DcfData, KTrajectory, SpatialDimension
+    g = torch.Generator().manual_seed(c['seed'])
+
+    def t(*shape):
+        return torch.randint(-4, 5, shape, generator=g).to(torch.float64)
+    if c['container'] == 'spatial':
+        obj = SpatialDimension(t(2, 3), t(2, 3), t(2, 3))
+    elif c['container'] == 'ktraj':
+        obj = KTrajectory(t(1, 1, 1, 1), t(1, 1, 3, 1), t(1, 1, 1, 4))
+    elif c['container'] == 'dcf':
+        obj = DcfData(data=t(1, 2, 3, 4))
+    else:
+        import dataclasses
+        from mrpro.data.MoveDataMixin import MoveDataMixin
+
+        @dataclasses.dataclass
+        class Box(MoveDataMixin):
+            pos: SpatialDimension
+            w: torch.Tensor
+        obj = Box(SpatialDimension(t(2), t(2), t(2)), t(3))
+    src_tensors = []
+
+    def collect(o):
+        for _, v in o._items():
+            if isinstance(v, torch.Tensor):
+                src_tensors.append(v)
+            elif hasattr(v, '_items'):
+                collect(v)
+    collect(obj)
+    before = [(x.clone(), x._version, x.data_ptr()) for x in src_tensors]
+    fn = {'mul_': lambda x: x.mul_(2) if isinstance(x, torch.Tensor) else x, 'clamp_': lambda x: x.clamp_(min=0) if isinstance(x, torch.Tensor) else x,
+          'identity': lambda x: x, 'view': lambda x: x.view(x.shape) if isinstance(x, torch.Tensor) else x, 'none': None}[c['fn']]
+    res = obj.apply(fn)
+    changed = any(not torch.equal(x, b[0]) or x._version != b[1] for x, b in zip(src_tensors, before))
+    res_tensors = []
+
+    def collect2(o):
+        for _, v in o._items():
+            if isinstance(v, torch.Tensor):
+                res_tensors.append(v)
+            elif hasattr(v, '_items'):
+                collect2(v)
+    collect2(res)
+    src_ptrs = {b[2] for b in before}
+    shares = any(x.data_ptr() in src_ptrs for x in res_tensors)
+    # the result holds f(copy of the source values)
+    exp = [b[0].clone() for b in before]
+    exp = [e.mul(2) if c['fn'] == 'mul_' else e.clamp(min=0) if c['fn'] == 'clamp_' else e for e in exp]
+    values_ok = len(exp) == len(res_tensors) and all(torch.equal(a, b) for a, b in zip(exp, res_tensors))
+    return {'source_changed': changed, 'shares_memory': shares, 'values_ok': values_ok}
+
+
+def _oracle_apply_inplace(c, o):
+    if isinstance(o, dict) and 'raises' in o:
+        return f'apply({c["fn"]}) on {c["container"]} raised {o}'
+    if o['source_changed']:
+        return f'{c["container"]}.apply({c["fn"]}) modified the source object'
+    if o['shares_memory']:
+        return f'the result of {c["container"]}.apply({c["fn"]}) shares memory with the source'
+    if not o['values_ok']:
+        return f'{c["container"]}.apply({c["fn"]}) does not hold the function applied to the source values'
+    return None
+
+
+FAMILIES.append(Family('apply_inplace_function', _gen_apply_inplace, _impl_apply_inplace, None, '', None, _oracle_apply_inplace,
+                       theorem='C18_source_untouched, C18_fresh (apply = clone then apply_)'))
